@@ -814,13 +814,24 @@ Proof.
   unfold hydro_integrand. apply (continuous_comp fx vmr2specific_humidity); [exact Hc|apply q_continuous; exact Hr].
 Qed.
 
+(* the translated `density` is the quotient p / (R T) for every T (also T = 0, where both sides are 0), whichever way the source
+   writes it *)
+Lemma density_quotient_all p T R0 : R0 <> 0 -> density p T R0 = p / (R0 * T).
+Proof.
+  intros HR. destruct (Req_dec T 0) as [E|E].
+  - subst T. unfold density, Rdiv. rewrite ?Rmult_0_r, ?Rinv_0. ring.
+  - unfold density. field. repeat split; assumption.
+Qed.
+
 Lemma vapour_density_integrable (fx fp fT : R -> R) z0 z1 : z0 <= z1 ->
   (forall z, z0 <= z <= z1 -> continuous fx z /\ continuous fp z /\ continuous fT z /\ 0 < fT z) ->
   integrable (vapour_integrand fx fp fT) z0 z1.
 Proof.
   intros Hz H. apply (@ex_RInt_continuous R_CompleteNormedModule).
   intros z Hzz. rewrite Rmin_left, Rmax_right in Hzz by exact Hz. destruct (H z Hzz) as [Hcx [Hcp [HcT HT]]].
-  unfold vapour_integrand, density. pose proof Rv_pos as HR.
+  pose proof Rv_pos as HR.
+  apply (continuous_ext (fun z => fx z * (fp z / (c_gas_constant_water_vapor * fT z)))).
+  { intros y. unfold vapour_integrand. rewrite density_quotient_all by lra. reflexivity. }
   apply (continuous_mult fx (fun z => fp z / (c_gas_constant_water_vapor * fT z))); [exact Hcx|].
   apply (continuous_mult fp (fun z => / (c_gas_constant_water_vapor * fT z))); [exact Hcp|].
   apply (continuous_Rinv_comp (fun z => c_gas_constant_water_vapor * fT z)); [|nra].
